@@ -1707,6 +1707,10 @@ def main():
     rs2coq_api.main(os.path.join(os.path.dirname(dst), "ApiGen.v"))
     import rs2coq_cached         # part 6: CachedEnforcer -> Gen/CachedGen.v
     rs2coq_cached.main(os.path.dirname(dst))
+    import rs2coq_links          # part 8: role links + store mutators -> Gen/LinksGen.v
+    rs2coq_links.main(os.path.dirname(dst))
+    import rs2coq_loop           # part 10: the two enforcement loops -> Gen/EnforceGen.v
+    rs2coq_loop.main(os.path.dirname(dst))
 
 
 if __name__ == "__main__":
